@@ -71,61 +71,147 @@ theorem Conservative.trans {P E1 E2 : List (DefExt.Rule Nat)} {N1 N2 : Nat → B
 
 /-! ### one clause definition -/
 
+/-- how the fresh atom is introduced: as a free atom (a choice, or an external set free) that the constraints determine, or
+    as an external with a fixed truth value (the placeholder of a `>` whose target lies beyond the horizon: true for the weak
+    operator, false for the strong one) -/
+inductive DefKind where
+  | free
+  | fixed (b : Bool)
+  deriving Repr, DecidableEq
+
 /-- a fresh atom `v`, the integrity constraints written for it and the value they force on it -/
 structure ClauseDef where
   v : Nat
   cs : List Clause
   f : (Nat → Bool) → Bool
+  kind : DefKind := .free
 
-/-- what the backend receives: the choice on `v` and the constraints -/
+/-- what the solver holds: the choice on `v` and the constraints; for a fixed external a fact or nothing -/
 def ClauseDef.rules (d : ClauseDef) : List (DefExt.Rule Nat) :=
-  { head := [d.v], choice := true } :: d.cs.map clauseRule
+  match d.kind with
+  | .free => { head := [d.v], choice := true } :: d.cs.map clauseRule
+  | .fixed true => [{ head := [d.v] }]
+  | .fixed false => []
 
-/-- the constraints hold exactly when `v` has the value `f`, which does not look at `v` itself -/
+/-- the constraints hold exactly when `v` has the value `f`, which does not look at `v` itself; a fixed external has no
+    constraints and its value is the constant -/
 def ClauseDef.WF (d : ClauseDef) : Prop :=
   0 < d.v ∧ (∀ Y Y' : Nat → Bool, (∀ x, x ≠ d.v → Y x = Y' x) → d.f Y = d.f Y') ∧
-  ∀ Y : Nat → Bool, clausesOk Y d.cs = (Y d.v == d.f Y)
+  match d.kind with
+  | .free => ∀ Y : Nat → Bool, clausesOk Y d.cs = (Y d.v == d.f Y)
+  | .fixed b => d.cs = [] ∧ d.f = fun _ => b
 
 theorem ClauseDef.rules_shape (d : ClauseDef) : ∀ r ∈ d.rules, DefExt.EShape (fun n => n == d.v) r := by
   intro r hr
-  simp only [ClauseDef.rules, List.mem_cons, List.mem_map] at hr
-  rcases hr with rfl | ⟨c, _, rfl⟩
-  · exact Or.inl ⟨rfl, rfl, rfl, rfl, by simp⟩
-  · exact Or.inr (Or.inl ⟨rfl, rfl⟩)
+  unfold ClauseDef.rules at hr
+  cases hk : d.kind with
+  | free =>
+    rw [hk] at hr
+    simp only [List.mem_cons, List.mem_map] at hr
+    rcases hr with rfl | ⟨c, _, rfl⟩
+    · exact Or.inl ⟨rfl, rfl, rfl, rfl, by simp⟩
+    · exact Or.inr (Or.inl ⟨rfl, rfl⟩)
+  | fixed b =>
+    rw [hk] at hr
+    cases b with
+    | false => simp at hr
+    | true =>
+      simp only [List.mem_singleton] at hr
+      subst hr
+      exact Or.inr (Or.inr ⟨rfl, rfl, d.v, rfl, by simp⟩)
 
 theorem single_conservative (P : List (DefExt.Rule Nat)) (d : ClauseDef) (hwf : d.WF)
     (hP : ∀ r ∈ P, ∀ x ∈ r.atoms, (x == d.v) = false) :
     Conservative P d.rules (fun n => n == d.v) := by
   obtain ⟨hv, hf, hcs⟩ := hwf
   have hE := d.rules_shape
-  apply DefExt.conservative P _ _ hP hE
-  apply DefExt.det_of_function P _ _ hP hE (fun Y _ => d.f Y)
-  · intro Y Y' hag n
-    exact hf Y Y' (fun x hx => hag x (by simpa using hx))
-  · intro Y
-    constructor
-    · intro hsat n hn
+  cases hk : d.kind with
+  | free =>
+    rw [hk] at hcs
+    have hrules : d.rules = { head := [d.v], choice := true } :: d.cs.map clauseRule := by
+      unfold ClauseDef.rules; rw [hk]
+    apply DefExt.conservative P _ _ hP hE
+    apply DefExt.det_of_function P _ _ hP hE (fun Y _ => d.f Y)
+    · intro Y Y' hag n
+      exact hf Y Y' (fun x hx => hag x (by simpa using hx))
+    · intro Y
+      constructor
+      · intro hsat n hn
+        have hnv : n = d.v := by simpa using hn
+        subst hnv
+        have hall : clausesOk Y d.cs = true := by
+          simp only [clausesOk, List.all_eq_true]
+          intro c hc
+          rw [← clauseRule_sat]
+          exact hsat _ (by rw [hrules]; simp only [List.mem_cons, List.mem_map]; exact Or.inr ⟨c, hc, rfl⟩)
+        rw [hcs] at hall
+        exact beq_iff_eq.mp hall
+      · intro hval r hr
+        rw [hrules] at hr
+        simp only [List.mem_cons, List.mem_map] at hr
+        rcases hr with rfl | ⟨c, hc, rfl⟩
+        · simp [DefExt.Rule.sat, DefExt.Rule.bodyHolds, DefExt.Rule.headHolds]
+        · rw [clauseRule_sat]
+          have hall : clausesOk Y d.cs = true := by
+            rw [hcs, hval d.v (by simp)]; simp
+          exact List.all_eq_true.mp hall c hc
+    · intro n hn
       have hnv : n = d.v := by simpa using hn
       subst hnv
-      have hall : clausesOk Y d.cs = true := by
-        simp only [clausesOk, List.all_eq_true]
-        intro c hc
-        rw [← clauseRule_sat]
-        exact hsat _ (by simp only [ClauseDef.rules, List.mem_cons, List.mem_map]; exact Or.inr ⟨c, hc, rfl⟩)
-      rw [hcs] at hall
-      exact beq_iff_eq.mp hall
-    · intro hval r hr
-      simp only [ClauseDef.rules, List.mem_cons, List.mem_map] at hr
-      rcases hr with rfl | ⟨c, hc, rfl⟩
-      · simp [DefExt.Rule.sat, DefExt.Rule.bodyHolds, DefExt.Rule.headHolds]
-      · rw [clauseRule_sat]
-        have hall : clausesOk Y d.cs = true := by
-          rw [hcs, hval d.v (by simp)]; simp
-        exact List.all_eq_true.mp hall c hc
-  · intro n hn
-    have hnv : n = d.v := by simpa using hn
-    subst hnv
-    exact ⟨{ head := [d.v], choice := true }, by simp [ClauseDef.rules], by simp, rfl, rfl, rfl⟩
+      exact ⟨{ head := [d.v], choice := true }, by rw [hrules]; simp, by simp, rfl, rfl, rfl⟩
+  | fixed b =>
+    cases b with
+    | true =>
+      have hrules : d.rules = [{ head := [d.v] }] := by unfold ClauseDef.rules; rw [hk]
+      apply DefExt.conservative P _ _ hP hE
+      apply DefExt.det_of_function P _ _ hP hE (fun _ _ => true)
+      · intro _ _ _ _; rfl
+      · intro Y
+        rw [hrules]
+        constructor
+        · intro hsat n hn
+          have hnv : n = d.v := by simpa using hn
+          subst hnv
+          have := hsat { head := [d.v] } (by simp)
+          simpa [DefExt.Rule.sat, DefExt.Rule.bodyHolds, DefExt.Rule.headHolds] using this
+        · intro hval r hr
+          simp only [List.mem_singleton] at hr
+          subst hr
+          have := hval d.v (by simp)
+          simp [DefExt.Rule.sat, DefExt.Rule.bodyHolds, DefExt.Rule.headHolds, this]
+      · intro n hn
+        have hnv : n = d.v := by simpa using hn
+        subst hnv
+        exact ⟨{ head := [d.v] }, by rw [hrules]; simp, by simp, rfl, rfl, rfl⟩
+    | false =>
+      -- nothing is added: an atom that no rule of `P` mentions is false in every stable model of `P`
+      have hrules : d.rules = [] := by unfold ClauseDef.rules; rw [hk]
+      rw [hrules]
+      have hfalse : ∀ X, DefExt.Stable P X → X d.v = false := by
+        intro X hs
+        cases hx : X d.v with
+        | false => rfl
+        | true =>
+          obtain ⟨r, hr, hmem, _⟩ := DefExt.stable_supported hs d.v hx
+          have := hP r hr d.v (by simp [DefExt.Rule.atoms, hmem])
+          simp at this
+      refine ⟨?_, ?_, ?_⟩
+      · intro X hs
+        have hs' : DefExt.Stable P X := by simpa using hs
+        have : DefExt.cut (fun n => n == d.v) X = X := by
+          funext a
+          simp only [DefExt.cut]
+          by_cases ha : a = d.v
+          · subst ha; simp [hfalse X hs']
+          · simp [ha]
+        rw [this]; exact hs'
+      · intro X0 hs; exact ⟨X0, by simpa using hs, fun _ _ => rfl⟩
+      · intro X X' hs hs' hag a
+        have h1 : DefExt.Stable P X := by simpa using hs
+        have h2 : DefExt.Stable P X' := by simpa using hs'
+        by_cases ha : a = d.v
+        · subst ha; rw [hfalse X h1, hfalse X' h2]
+        · exact hag a (by simpa using ha)
 
 /-! ### chains -/
 
@@ -145,13 +231,26 @@ def ClauseDef.NewTo (d d' : ClauseDef) : Prop := d'.v ≠ d.v ∧ ∀ c ∈ d.cs
 
 theorem rules_fresh (d d' : ClauseDef) (h : d.NewTo d') : ∀ r ∈ d.rules, ∀ x ∈ r.atoms, (x == d'.v) = false := by
   intro r hr x hx
-  simp only [ClauseDef.rules, List.mem_cons, List.mem_map] at hr
-  rcases hr with rfl | ⟨c, hc, rfl⟩
-  · simp only [DefExt.Rule.atoms, List.append_nil, List.mem_singleton] at hx
-    subst hx
-    simpa using fun e => h.1 e.symm
-  · obtain ⟨l, hl, rfl⟩ := clauseRule_atoms c x hx
-    simpa using h.2 c hc l hl
+  have hvne : (d.v == d'.v) = false := by simpa using fun e => h.1 e.symm
+  unfold ClauseDef.rules at hr
+  cases hk : d.kind with
+  | free =>
+    rw [hk] at hr
+    simp only [List.mem_cons, List.mem_map] at hr
+    rcases hr with rfl | ⟨c, hc, rfl⟩
+    · simp only [DefExt.Rule.atoms, List.append_nil, List.mem_singleton] at hx
+      subst hx; exact hvne
+    · obtain ⟨l, hl, rfl⟩ := clauseRule_atoms c x hx
+      simpa using h.2 c hc l hl
+  | fixed b =>
+    rw [hk] at hr
+    cases b with
+    | false => simp at hr
+    | true =>
+      simp only [List.mem_singleton] at hr
+      subst hr
+      simp only [DefExt.Rule.atoms, List.append_nil, List.mem_singleton] at hx
+      subst hx; exact hvne
 
 /-- **chains of clause definitions are conservative**: every fresh atom new to the program and to the definitions
     before it; later definitions may mention earlier fresh atoms -/
@@ -204,6 +303,7 @@ theorem boolDef_wf (op : String) (v : Nat) (a b : Int) (hv : 0 < v) (ha : a ≠ 
     rw [litTrue_congr Y Y' a (hag _ hva), litTrue_congr Y Y' b (hag _ hvb)]
   · intro Y
     simp only [boolDef]
+    show clausesOk Y (boolClauses op (v : Int) a b) = _
     rw [boolClauses_ok Y op (v : Int) a b (by omega) ha hb hop, litTrue_nat Y v hv]
 
 /-- `TelFormula._translate`: the literal `v` of one induction step -/
@@ -223,6 +323,7 @@ theorem telDef_wf (dual : Bool) (v : Nat) (lhs : Option Int) (rhs pre : Int) (hv
     | some l => simp only [Option.map_some]; rw [litTrue_congr Y Y' l (hag _ (hl l rfl).2)]
   · intro Y
     simp only [telDef]
+    show clausesOk Y (telClauses dual (v : Int) lhs rhs pre) = _
     rw [telClauses_ok Y dual (v : Int) lhs rhs pre (by omega) (fun l h => (hl l h).1) hr hp, litTrue_nat Y v hv]
 
 /-- `make_equal`: the atom `v` (a theory atom of a rule body, free in the ground program) made equivalent to literal `b` -/
@@ -236,19 +337,30 @@ theorem eqDef_wf (v : Nat) (b : Int) (hv : 0 < v) (hb : b ≠ 0) (hvb : b.natAbs
     rw [litTrue_congr Y Y' b (hag _ hvb)]
   · intro Y
     simp only [eqDef]
+    show clausesOk Y (makeEqual (v : Int) b) = _
     rw [makeEqual_ok Y (v : Int) b (by omega) hb, litTrue_nat Y v hv]
 
-/-! ### non-vacuity: `{a}.` then `v2 := a | ¬a`, `v3 := v2 & a`, theory atom `4 ≡ v3` -/
+/-- `Next.do_translate` beyond the horizon: the placeholder is an external with the truth value of the weak / strong
+    operator at the end of the trace -/
+def placeholderDef (v : Nat) (weak : Bool) : ClauseDef :=
+  { v := v, cs := [], f := fun _ => weak, kind := .fixed weak }
 
-def exChain : List ClauseDef := [boolDef "|" 2 1 (-1), boolDef "&" 3 2 1, eqDef 4 3]
+theorem placeholderDef_wf (v : Nat) (weak : Bool) (hv : 0 < v) : (placeholderDef v weak).WF :=
+  ⟨hv, fun _ _ _ => rfl, rfl, rfl⟩
+
+/-! ### non-vacuity: `{a}.` then `v2 := a | ¬a`, the placeholder `5` of a weak next beyond the horizon, `v3 := v2 & 5`,
+    theory atom `4 ≡ v3` -/
+
+def exChain : List ClauseDef := [boolDef "|" 2 1 (-1), placeholderDef 5 true, boolDef "&" 3 2 5, eqDef 4 3]
 
 theorem exChain_conservative :
     Conservative [{ head := [1], choice := true }] (chainRules exChain) (fun n => exChain.any (fun d => n == d.v)) := by
   apply chain_conservative
   · intro d hd
     simp only [exChain, List.mem_cons, List.not_mem_nil, or_false] at hd
-    rcases hd with rfl | rfl | rfl
+    rcases hd with rfl | rfl | rfl | rfl
     · exact boolDef_wf _ _ _ _ (by decide) (by decide) (by decide) (by decide) (by decide) (by simp)
+    · exact placeholderDef_wf _ _ (by decide)
     · exact boolDef_wf _ _ _ _ (by decide) (by decide) (by decide) (by decide) (by decide) (by simp)
     · exact eqDef_wf _ _ (by decide) (by decide) (by decide)
   · intro d hd r hr x hx
@@ -257,9 +369,9 @@ theorem exChain_conservative :
     simp only [DefExt.Rule.atoms, List.append_nil, List.mem_singleton] at hx
     subst hx
     simp only [exChain, List.mem_cons, List.not_mem_nil, or_false] at hd
-    rcases hd with rfl | rfl | rfl <;> decide
+    rcases hd with rfl | rfl | rfl | rfl <;> decide
   · simp only [exChain, List.pairwise_cons, List.mem_cons, List.not_mem_nil, or_false, forall_eq_or_imp, forall_eq,
       List.Pairwise.nil, and_true, false_imp_iff, implies_true]
-    refine ⟨⟨?_, ?_⟩, ?_⟩ <;> (unfold ClauseDef.NewTo; decide)
+    refine ⟨⟨?_, ?_, ?_⟩, ⟨?_, ?_⟩, ?_⟩ <;> (unfold ClauseDef.NewTo; decide)
 
 end TelProofs
